@@ -28,3 +28,30 @@ fn unique_decisions_follow_visibility() {
     let r7 = db.execute("UPDATE t SET v = 7 WHERE id = 1"); assert!(r7.is_ok(), "UPDATE conflicts with its own row: {:?}", r7.err());
     assert!(db.execute("INSERT INTO t VALUES (9, 400, 0, 0)").is_err(), "duplicate of a re-used key accepted");
 }
+
+#[test]
+fn unique_holds_whatever_the_other_columns_contain() {
+    let dir = tempfile::TempDir::new().unwrap();
+    let db = Database::create(dir.path().join("t.db"), DBConfig::default()).unwrap();
+    db.execute("CREATE TABLE a (id BIGINT, email TEXT, nick TEXT, UNIQUE(email))").unwrap();
+    db.execute("INSERT INTO a VALUES (1, 'a@x.org', 'al')").unwrap();
+    assert!(db.execute("INSERT INTO a VALUES (2, 'a@x.org', NULL)").is_err(), "duplicate key accepted because an unrelated column is NULL");
+    assert!(db.execute("INSERT INTO a (id, email) VALUES (3, 'a@x.org')").is_err(), "duplicate key accepted because an unrelated column is omitted");
+    db.execute("INSERT INTO a VALUES (4, 'b@x.org', NULL)").unwrap();
+}
+
+#[test]
+fn key_deleted_and_reinserted_in_one_transaction_stays_taken() {
+    let dir = tempfile::TempDir::new().unwrap();
+    let db = Database::create(dir.path().join("t.db"), DBConfig::default()).unwrap();
+    db.execute("CREATE TABLE u (id BIGINT, name TEXT, UNIQUE(name))").unwrap();
+    db.execute("INSERT INTO u VALUES (1, 'k')").unwrap();
+    {
+        let mut s = db.session().unwrap();
+        s.execute("DELETE FROM u WHERE id = 1").unwrap();
+        s.execute("INSERT INTO u VALUES (2, 'k')").unwrap();
+        s.commit_transaction().unwrap();
+        std::mem::forget(s);
+    }
+    assert!(db.execute("INSERT INTO u VALUES (3, 'k')").is_err(), "key re-inserted by the deleting transaction is free again");
+}
